@@ -28,7 +28,7 @@ var formatNewDecoder = map[string]string{
 }
 
 func checkC16(c *an.Ctx) {
-	c.Rule("C16.1", "registry (E9): unmarshalData dispatches, case-insensitively, .yaml/.yml → yaml.v2, .json → encoding/json, .toml → go-toml; each case only decodes the whole input into the one map that is returned unmodified; any other extension is an error; readURL/readFile derive the extension from content type / path only")
+	c.Rule("C16.1", "registry (E9): unmarshalData dispatches, case-insensitively, .yaml/.yml → yaml.v2, .json → encoding/json, .toml → go-toml; each case only decodes the whole input into the one map that is returned unmodified; any other extension is an error; readURL/readFile derive the extension from content type / path only; no document is read through a truncating reader whose cut goes undetected")
 	c.Rule("C16.2", "one decode path (E4): mapstructure.NewDecoder has one caller with one configuration; every configDefinition is produced by it; Load and LoadGlobalConfig both go load → decode → buildFromDefinition")
 	c.Rule("C16.4", "closed schema (E9 over types): no field reachable from configDefinition has an interface type — every leaf is a string, bool, duration or a list/map of those, so mapstructure's weak conversion erases the decoders' dynamic types (YAML int, TOML int64, JSON float64; yaml.v2's map[interface{}]interface{}) before the configuration is built")
 	c.Rule("C16.3", "format-blindness (E4): outside unmarshalData/readURL/readFile nothing in internal/config looks at a file extension, a content type, or at decoder-specific dynamic types; a decode hook of the module asks at most whether its source is a string (the numeric kinds differ between the decoders); nothing reached from the loader compares two dynamic reflect.Types for identity")
@@ -514,6 +514,7 @@ func checkC16(c *an.Ctx) {
 		loadPipeline(c, "C16.2", f, map[string]bool{"pipeline": true}, true)
 	}
 
+	wholeInput(c, "C16.1")
 	// C16.4: the definition schema is closed under decoder-independent types
 	hookKindBlind(c, "C16.3")
 	closedSchema(c, "C16.4")
@@ -774,4 +775,108 @@ func fetchesOverHTTP(fn *ssa.Function) bool {
 		}
 	})
 	return found
+}
+
+// wholeInput: what the loader reads is what the decoders get. io.LimitReader cuts its source silently (library
+// summary), and a cut document is format-dependent — the YAML prefix that ends at a line end still parses, the
+// JSON one never does. A limit is fine when the cut is detected: LimitReader(r, N) followed by a test of
+// len(data) against a constant that only a cut document can reach (len > K with K < N, len ≥ K with K ≤ N).
+func wholeInput(c *an.Ctx, rule string) {
+	p := c.P
+	var roots []*ssa.Function
+	for _, fn := range p.Funcs {
+		if inPkgs("internal/config")(fn) && fn.Signature.Recv() != nil && an.TypeIs(fn.Signature.Recv().Type(), "internal/config", "Loader") {
+			roots = append(roots, fn)
+		}
+	}
+	n := 0
+	for _, fn := range sortedFns(func() map[*ssa.Function]bool {
+		m := map[*ssa.Function]bool{}
+		for f := range p.Reach(roots, func(e an.CallEdge) bool { return e.Kind != an.EdgeGo && an.InModule(e.Callee) }) {
+			if f.Blocks != nil {
+				m[f] = true
+			}
+		}
+		return m
+	}()) {
+		for _, ci := range an.CallsIn(fn, "io.LimitReader") {
+			lim, ok := ci.(*ssa.Call)
+			if !ok {
+				continue
+			}
+			n++
+			key := an.Short(fn) + ":LimitReader"
+			limit, isConst := an.ConstInt(lim.Call.Args[1])
+			if !isConst {
+				c.Und(rule, key, lim.Pos(), "the limit of io.LimitReader is not a constant: whether a cut document is detected cannot be decided by this rule")
+				continue
+			}
+			// the bytes read through it
+			detected := false
+			an.EachInstr(fn, func(in ssa.Instruction) {
+				bo, ok := in.(*ssa.BinOp)
+				if !ok || detected {
+					return
+				}
+				x, y, op := bo.X, bo.Y, bo.Op
+				if _, isK := an.ConstInt(x); isK {
+					x, y = y, x
+					switch op {
+					case token.LSS:
+						op = token.GTR
+					case token.LEQ:
+						op = token.GEQ
+					case token.GTR:
+						op = token.LSS
+					case token.GEQ:
+						op = token.LEQ
+					}
+				}
+				k, isK := an.ConstInt(y)
+				if !isK {
+					return
+				}
+				call, ok := x.(*ssa.Call)
+				if !ok {
+					return
+				}
+				b, ok := call.Call.Value.(*ssa.Builtin)
+				if !ok || b.Name() != "len" {
+					return
+				}
+				through := false
+				for _, src := range an.Sources(call.Call.Args[0]) {
+					if ex, ok := src.(*ssa.Extract); ok {
+						src = ex.Tuple
+					}
+					rd, ok := src.(*ssa.Call)
+					if !ok {
+						continue
+					}
+					name := an.ShortCallee(&rd.Call)
+					if name != "io/ioutil.ReadAll" && name != "io.ReadAll" {
+						continue
+					}
+					for _, a := range an.Sources(rd.Call.Args[0]) {
+						if mi, ok := a.(*ssa.MakeInterface); ok {
+							a = mi.X
+						}
+						if a == ssa.Value(lim) {
+							through = true
+						}
+					}
+				}
+				if !through {
+					return
+				}
+				if (op == token.GTR && k < limit) || (op == token.GEQ && k <= limit) {
+					detected = true
+				}
+			})
+			c.Check(detected, rule, key, lim.Pos(), "a document cut at the limit is detected by a length test only a cut document can meet", fmt.Sprintf("%s reads the document through io.LimitReader(…, %d) and no test of the length read can tell a cut document from a whole one: a longer file is cut silently, and the cut prefix loads as YAML, fails as JSON", an.Short(fn), limit))
+		}
+	}
+	if n == 0 {
+		c.OK(rule, "loader:whole-input", token.NoPos, "nothing the loader reaches reads a document through a truncating reader")
+	}
 }
